@@ -929,6 +929,70 @@ func (v *View) checkC10(res *Result) {
 		}
 		// the deposed leader is demoted within the C03(a) bound of the replacement: checked by C03(a)
 	}
+	// the same obligation for every later term: a leader that has a strictly higher-priority,
+	// takeover-enabled instance running beside it (as a follower for at least one H already)
+	// is replaced by it within 3H
+	for _, t := range v.All {
+		io := v.instSpec(t.Inst)
+		if io == nil {
+			continue
+		}
+		for _, is := range v.Spec.Insts {
+			if !is.Takeover || is.Name == t.Inst || is.Group != io.Group || !(is.Priority > io.Priority) {
+				continue
+			}
+			// running: its latest Start before the term returned ok at least H earlier, no stop call since
+			var st *APICall
+			for _, a := range v.APIs {
+				if a.Inst != is.Name || a.Ret < 0 || a.Ret > t.Up {
+					continue
+				}
+				if a.API == "Start" && a.Result == "ok" {
+					st = a
+				} else if a.IsStop() {
+					st = nil
+				}
+			}
+			if st == nil || t.UpVT-st.RetVT < is.H {
+				continue
+			}
+			dl := t.UpVT + 3*io.H
+			if is.H > io.H {
+				dl = t.UpVT + 3*is.H
+			}
+			dl += v.slack(t.UpVT, dl)
+			if dl > v.End {
+				continue
+			}
+			skip := false
+			for _, o := range v.Spec.Insts {
+				if o.Name != is.Name && o.Name != t.Inst && o.Group == is.Group && o.Takeover && o.Priority >= is.Priority {
+					skip = true // another candidate at least as high may legitimately get there first
+				}
+			}
+			for _, a := range v.APIs {
+				if (a.Inst == is.Name || a.Inst == t.Inst) && a.IsStop() && a.CallVT <= dl && (a.Ret < 0 || a.Ret > t.Up) && !a.Teardown {
+					skip = true // one of the two is being stopped
+				}
+			}
+			if skip {
+				continue
+			}
+			got := false
+			for _, x := range v.Terms[is.Name] {
+				if x.Up > t.Up && x.UpVT <= dl {
+					got = true
+				}
+			}
+			if !got && t.Down >= 0 && t.DownVT < dl {
+				continue // the term ended for another reason before the deadline
+			}
+			res.Obs["c10.prompt_obligations_term"]++
+			if !got {
+				res.viol("C10", "promptness", "takeover-not-within-3H:term", fmt.Sprintf("%s (prio %d, takeover) ran as a follower beside leader %s (prio %d, term from %v) and was not leader by %v", is.Name, is.Priority, t.Inst, io.Priority, t.UpVT, dl), t.Up)
+			}
+		}
+	}
 	// final owner and stability over the last 10H
 	v.checkC10Final(res)
 }
@@ -1321,11 +1385,21 @@ func (v *View) checkC12(res *Result) {
 		cnt := 0
 		var pendingIdx = -1 // index of the check that reached M
 		flag := false
+		holdOpen := false // a check held in flight by the harness has not reported its result yet
+		var heldUntil time.Duration
 		for idx, e := range v.Ev {
 			if e.Inst != is.Name {
 				continue
 			}
 			switch e.Kind {
+			case "break.hit":
+				if strings.HasPrefix(e.Op, "health:") {
+					holdOpen = true
+				}
+			case "break.release":
+				if strings.HasPrefix(e.Op, "health:") {
+					holdOpen, heldUntil = false, e.VT
+				}
 			case "flag":
 				if e.Flag && !flag {
 					cnt = 0 // new term
@@ -1373,7 +1447,7 @@ func (v *View) checkC12(res *Result) {
 				}
 			case "quiescent":
 				// by the first quiescent point strictly after the check that reached M has returned
-				if pendingIdx >= 0 && flag && e.VT > v.Ev[pendingIdx].VT+100*time.Millisecond {
+				if pendingIdx >= 0 && flag && e.VT > v.Ev[pendingIdx].VT+100*time.Millisecond && !holdOpen && e.VT > heldUntil {
 					res.viol("C12", "late", fmt.Sprintf("health-demotion-late:%d", M), fmt.Sprintf("%s still leader at %v although %d consecutive unhealthy results were reported by %v", is.Name, e.VT, M, v.Ev[pendingIdx].VT), pendingIdx)
 					pendingIdx = -1
 				}
